@@ -338,7 +338,44 @@ pub enum CfDesc {
     Rfu(u8, [u8; 15]),
 }
 
+/// 16 CFList octets of a description (type octet last)
+fn cflist_bytes(cf: &CfDesc) -> Option<[u8; 16]> {
+    let mut c = [0u8; 16];
+    match cf {
+        CfDesc::None => return None,
+        CfDesc::Dynamic(f) => {
+            for i in 0..5 {
+                let v = f[i] / 100;
+                c[3 * i..3 * i + 3].copy_from_slice(&[v as u8, (v >> 8) as u8, (v >> 16) as u8]);
+            }
+        }
+        CfDesc::Fixed(m) => {
+            c[..9].copy_from_slice(m);
+            c[15] = 1;
+        }
+        CfDesc::Rfu(ty, content) => {
+            c[..15].copy_from_slice(content);
+            c[15] = *ty;
+        }
+    }
+    Some(c)
+}
+
+/// The JoinAccept as the independent reference encoder builds it (the harness's join server shares
+/// no code with the device's stack).
 pub fn build_join_accept(key: &[u8; 16], devaddr: u32, dl_settings: u8, rx_delay: u8, cf: &CfDesc) -> Vec<u8> {
+    let r = crate::refcodec::build_join_accept(key, 0x20, &JOIN_NONCE, &NET_ID, devaddr, dl_settings, rx_delay, cflist_bytes(cf));
+    if std::env::var("LV_VIEW_SELFTEST").is_ok() {
+        let o = build_join_accept_impl(key, devaddr, dl_settings, rx_delay, cf);
+        if o != r {
+            eprintln!("VIEW-MISMATCH joinaccept impl={} ref={}", hex(&o), hex(&r));
+        }
+    }
+    r
+}
+
+/// the same JoinAccept through the crate's own creator (self-test of the reference encoder only)
+pub fn build_join_accept_impl(key: &[u8; 16], devaddr: u32, dl_settings: u8, rx_delay: u8, cf: &CfDesc) -> Vec<u8> {
     let mut buf = [0u8; 64];
     let crypto = DefaultNetworkCrypto::new(&AES128(*key));
     let c_f_list = match cf {
@@ -377,24 +414,13 @@ pub fn build_join_accept_raw(key: &[u8; 16], devaddr: u32, dl_settings: u8, rx_d
 /// As above with an arbitrary MHDR octet (the MIC covers it): a server speaking another major
 /// version, or a frame of another type that happens to verify.
 pub fn build_join_accept_mhdr(key: &[u8; 16], mhdr: u8, devaddr: u32, dl_settings: u8, rx_delay: u8, cf: Option<(u8, [u8; 15])>) -> Vec<u8> {
-    use lorawan::keys::{Crypto, NetworkCrypto};
-    let crypto = DefaultNetworkCrypto::new(&AES128(*key));
-    let mut out = vec![mhdr];
-    out.extend_from_slice(&JOIN_NONCE);
-    out.extend_from_slice(&NET_ID);
-    out.extend_from_slice(&devaddr.to_le_bytes());
-    out.push(dl_settings);
-    out.push(rx_delay);
-    if let Some((ty, content)) = cf {
-        out.extend_from_slice(&content);
-        out.push(ty);
-    }
-    let mic = crypto.calculate_mic(&[], &out);
-    out.extend_from_slice(&mic);
-    for block in out[1..].chunks_exact_mut(16) {
-        crypto.decrypt_block(block);
-    }
-    out
+    let c = cf.map(|(ty, content)| {
+        let mut c = [0u8; 16];
+        c[..15].copy_from_slice(&content);
+        c[15] = ty;
+        c
+    });
+    crate::refcodec::build_join_accept(key, mhdr, &JOIN_NONCE, &NET_ID, devaddr, dl_settings, rx_delay, c)
 }
 
 /// The decoded view of a received byte string, as the model consumes it (grammar in Driver/Mac.lean).
